@@ -236,7 +236,11 @@ func runReportTree(c rtCase) (o rtObs) {
 	for _, f := range c.Formulas {
 		o.Validations = append(o.Validations, f.FID)
 	}
-	rep, err := pkg.ValidateWithConfiguration(prof, string(data), false, nil, clockA, config.DefaultReportConfiguration())
+	repCfg := config.DefaultReportConfiguration()
+	if c.RangeStyle%2 == 0 {
+		repCfg = literalReportConfig(repCfg)
+	}
+	rep, err := pkg.ValidateWithConfiguration(prof, string(data), false, nil, clockA, repCfg)
 	if err != nil {
 		o.Err = err.Error()
 		return
